@@ -1,7 +1,89 @@
-import Driver.Util
-open Lean
+import Driver.ProgJson
+import Heph.Model.Check
+import Heph.Model.CondType
+import Heph.Model.GenVar
+/-! ops of the C01 family.
+  `check.wt` {program export + "bt": {"any","void","boolean","char","string","integer": index into tt,
+  "builtins": [indices]}} → {"r": "ok" | {"path": [...], "reason": tag, "detail": text},
+  "n": number of obligations, "tags": {tag: count}, "fail": [[path, tag, detail, kinds] …] (first 12 failures),
+  "nfail": number of failing obligations}. -/
+open Lean Heph Heph.Check
 namespace Driver.Check
 
-def handle : Handler := fun _ _ => none
+def parseLangTypes (tbl : Array Ty) (j : Json) : Except String LangTypes := do
+  let b ← j.getObjVal? "bt"
+  pure { any := ← tyAt tbl b "any", void := ← tyAt tbl b "void", boolean := ← tyAt tbl b "boolean",
+         char := ← tyAt tbl b "char", string := ← tyAt tbl b "string", integer := ← tyAt tbl b "integer",
+         builtins := ← tyListAt tbl b "builtins" }
+
+def tally (tags : List String) : Json :=
+  let m := tags.foldl (fun (m : List (String × Nat)) t =>
+    if m.any (·.1 == t) then m.map (fun p => if p.1 == t then (p.1, p.2 + 1) else p) else m ++ [(t, 1)]) []
+  Json.mkObj (m.map fun p => (p.1, Json.num (JsonNumber.fromNat p.2)))
+
+def failJson (o : Ob) : Json :=
+  Json.arr #[ofStrList o.path, Json.str o.tag, Json.str o.j.detail, Json.str o.j.kinds]
+
+def handle : Handler := fun op j =>
+  match op with
+  | "check.wt" => some (do
+      let (tbl, p) ← parseProgramObj j
+      let lt ← parseLangTypes tbl j
+      let os := progObs lt p
+      let bad := os.filter fun o => !o.j.check lt
+      let r := match checkProgram lt p with
+        | .ok => Json.str "ok"
+        | .error path reason detail =>
+            Json.mkObj [("path", ofStrList path), ("reason", Json.str reason), ("detail", Json.str detail)]
+      pure (Json.mkObj [("r", r), ("n", Json.num (JsonNumber.fromNat os.length)),
+        ("tags", tally (os.map (·.tag))), ("nfail", Json.num (JsonNumber.fromNat bad.length)),
+        ("fail", Json.arr ((bad.take 12).map failJson).toArray)]))
+  | "check.subd" => some (do
+      -- {tt, "bt", "s", "t"} → is `s` assignable to `t` according to the specification-side decider
+      let tbl ← parseTable j
+      let lt ← parseLangTypes tbl j
+      pure (res (Json.bool (asgB lt (← tyAt tbl j "s") (← tyAt tbl j "t")))))
+  | "check.condtype" => some (do
+      -- {tt, "tmp", "t", "f", "expect" [, "etype", "final"]} → {"same": model fold == recorded fold result,
+      --  "upper": the fold result bounds both branch types (code's is_subtype),
+      --  "final_is": which model the type recorded in the Conditional follows: "fold" (tree as is),
+      --  "fixed" (repaired fold: expected type when the fold result is no upper bound), "both", "neither",
+      --  "final_upper": the recorded type bounds both branch types}
+      let tbl ← parseTable j
+      let tmp ← tyAt tbl j "tmp"
+      let t ← tyAt tbl j "t"
+      let f ← tyAt tbl j "f"
+      let sub := fun (x acc : Ty) => Ty.isSubtype x acc == .yes
+      let out := condTypeTy tmp t f
+      let up := sub t out && sub f out
+      let base := [("same", answerTy tbl j out), ("upper", Json.bool up)]
+      match j.getObjVal? "final" with
+      | .ok _ =>
+          let fin ← tyAt tbl j "final"
+          let et ← tyAt tbl j "etype"
+          let fixed := if up then out else et
+          let isFold := Ty.beq fin out
+          let isFixed := Ty.beq fin fixed
+          let which := if isFold && isFixed then "both" else if isFold then "fold" else if isFixed then "fixed" else "neither"
+          pure (res (Json.mkObj (base ++ [("final_is", Json.str which),
+            ("final_upper", Json.bool (sub t fin && sub f fin))])))
+      | .error _ => pure (res (Json.mkObj base)))
+  | "check.genvar" => some (do
+      -- {tt, "extra", "vars": [{"name","t","final","outer"}], "etype", "sub", "jl", "out": name | null}
+      --  → {"ok": the recorded outcome refines the model, "cands": names of the model's candidates}
+      let tbl ← parseTable j
+      let extra ← parsePairs j "extra"
+      let vs ← (← getArr j "vars").toList.mapM fun v => do
+        pure ({ name := ← getStr v "name", ty := ← tyAt tbl v "t", final := ← getBool v "final",
+                outer := ← getBool v "outer" } : VarInfo)
+      let et ← tyAt tbl j "etype"
+      let sub ← getBool j "sub"
+      let jl ← getBool j "jl"
+      let out : GenVarOut := match (j.getObjValD "out").getStr? with
+        | .ok n => .variable n
+        | .error _ => .fallback
+      pure (res (Json.mkObj [("ok", Json.bool (genVariableRefines extra vs et sub jl out)),
+        ("cands", ofStrList ((genVariableCandidates extra vs et sub jl).map (·.name)))])))
+  | _ => none
 
 end Driver.Check
